@@ -267,7 +267,11 @@ func CheckC18(run *ev.Run) {
 		props["enumInt"] = map[string]interface{}{"type": "integer", "enum": []interface{}{1, 2, 30}}
 		props["pat"] = map[string]interface{}{"type": "string", "pattern": "^[a-z]+\\d{2}<&>$"}
 		props["arr"] = map[string]interface{}{"type": "array", "minItems": 1, "maxItems": 12, "uniqueItems": true, "items": map[string]interface{}{"type": "string"}}
-		dd["Bounds"] = map[string]interface{}{"type": "object", "properties": props}
+		// required members of every kind: plain, with a default, read-only, an array
+		props["reqDef"] = map[string]interface{}{"type": "string", "default": "x"}
+		props["reqNum"] = map[string]interface{}{"type": "integer", "default": 3}
+		props["reqRO"] = map[string]interface{}{"type": "string", "readOnly": true}
+		dd["Bounds"] = map[string]interface{}{"type": "object", "properties": props, "required": []string{"arr", "lens", "reqDef", "reqNum", "reqRO"}}
 		specDoc, _ := json.MarshalIndent(doc, "", " ")
 		original := map[string]bool{}
 		for k := range dd {
